@@ -187,7 +187,12 @@ func (tr *Tr) evalCall(env *CEnv, x *CCall) (Value, types.Type) {
 			// heap variables now as it had at entry (the code in between only wrote to objects it allocated itself)
 			reg := tr.g.heapRegistry()
 			var cs []string
-			tr.noteFrameTop("|top@0|")
+			oldSt := env.old
+			if oldSt == nil {
+				oldSt = tr.oldStateOr(env)
+			}
+			otop := oldSt.top
+			tr.noteFrameTop(otop)
 			for _, a := range x.Args {
 				pre := a.(*CStr).Val
 				matched := false
@@ -195,12 +200,12 @@ func (tr *Tr) evalCall(env *CEnv, x *CCall) (Value, types.Type) {
 					if hn == pre || strings.HasPrefix(hn, pre+"#") || strings.HasPrefix(hn, pre+".") {
 						matched = true
 						now := tr.heapVar(env.st, hn, reg[hn])
-						old := tr.heapVar(tr.oldStateOr(env), hn, reg[hn])
+						old := tr.heapVar(oldSt, hn, reg[hn])
 						if now == old {
 							continue
 						}
 						tr.fresh++
-						cs = append(cs, fmt.Sprintf("(forall ((r Int)) (! (=> (< r |top@0|) (= (select %s r) (select %s r))) :pattern ((select %s r)) :qid AF%d))", now, old, now, tr.fresh))
+						cs = append(cs, fmt.Sprintf("(forall ((r Int)) (! (=> (< r %s) (= (select %s r) (select %s r))) :pattern ((select %s r)) :qid AF%d))", otop, now, old, now, tr.fresh))
 						if tr.assumeMode {
 							if _, has := tr.allocParent[now]; !has {
 								tr.allocParent[now] = old
@@ -213,14 +218,42 @@ func (tr *Tr) evalCall(env *CEnv, x *CCall) (Value, types.Type) {
 				}
 			}
 			return boolV(sAnd(cs...)), bt
+		case "sameheap":
+			// sameheap("heap-prefix", ...): the named heap variables are identical (as whole arrays) to what they were in the old state
+			reg := tr.g.heapRegistry()
+			var cs []string
+			oldSt := env.old
+			if oldSt == nil {
+				oldSt = tr.oldStateOr(env)
+			}
+			for _, a := range x.Args {
+				pre := a.(*CStr).Val
+				matched := false
+				for _, hn := range sortedKeys(reg) {
+					if hn == pre || strings.HasPrefix(hn, pre+"#") || strings.HasPrefix(hn, pre+".") {
+						matched = true
+						now := tr.heapVar(env.st, hn, reg[hn])
+						old := tr.heapVar(oldSt, hn, reg[hn])
+						cs = append(cs, sEq(now, old))
+					}
+				}
+				if !matched {
+					panic(subsetErr("sameheap: unknown heap name " + pre))
+				}
+			}
+			return boolV(sAnd(cs...)), bt
 		case "frameexcept":
 			// frameexcept("heap-prefix", x, y, ...): every object that existed at function entry, other than the listed ones
 			// (slices: their backing arrays), has the same contents in the named heap variables now as it had at entry
 			reg := tr.g.heapRegistry()
 			var cs []string
-			tr.noteFrameTop("|top@0|")
+			oldSt := env.old
+			if oldSt == nil {
+				oldSt = tr.oldStateOr(env)
+			}
+			tr.noteFrameTop(oldSt.top)
 			pre := x.Args[0].(*CStr).Val
-			conds := []string{"(< 0 r)", "(< r |top@0|)"}
+			conds := []string{"(< 0 r)", "(< r " + oldSt.top + ")"}
 			for _, a := range x.Args[1:] {
 				v, t := tr.evalC(env, a)
 				conds = append(conds, sNot(sEq("r", tr.refOf(env, v, t))))
@@ -230,7 +263,7 @@ func (tr *Tr) evalCall(env *CEnv, x *CCall) (Value, types.Type) {
 				if hn == pre || strings.HasPrefix(hn, pre+"#") || strings.HasPrefix(hn, pre+".") {
 					matched = true
 					now := tr.heapVar(env.st, hn, reg[hn])
-					old := tr.heapVar(tr.oldStateOr(env), hn, reg[hn])
+					old := tr.heapVar(oldSt, hn, reg[hn])
 					if now == old {
 						continue
 					}
